@@ -8,10 +8,14 @@ EXTENDS Transforms, TLC, Json
 
 CONSTANTS MaxObjs,      \* objects in package p (1..MaxObjs)
           MaxDepth,     \* transformations applied in sequence (1 for the exhaustive edge set)
-          Slice, NSlices \* multi-object IRs are cut into NSlices classes; this run takes class Slice
+          Slice, NSlices, \* multi-object IRs are cut into NSlices classes; this run takes class Slice
+          SeqMode        \* TRUE: pairs "object-copying transformation, then any transformation" from one-object IRs
+                         \* (aliasing between a copy and its source only shows on the next transformation)
 
-VARIABLES pre, act, cur, depth
-vars == <<pre, act, cur, depth>>
+VARIABLES pre, act, cur, depth,
+          init0, hist    \* the IR the chain started from and the transformations applied so far: the
+                         \* harness replays the WHOLE chain on the real code in one Passes.Process call
+vars == <<pre, act, cur, depth, init0, hist>>
 
 MCFoldTable == [Foo |-> "foo", foo |-> "foo", FOO |-> "foo", Bar |-> "bar", bar |-> "bar", Baz |-> "baz",
                 spec |-> "spec", Spec |-> "spec", Metadata |-> "metadata", metadata |-> "metadata",
@@ -69,8 +73,10 @@ NewFields == <<FieldC("a", TRef("p", "Bar"), FALSE, <<"na">>), Field("n", TConst
 
 Acts ==
      [a : {"rename_object"}, from : ORefs, to : {"Baz", "Foo"}]
-\cup [a : {"omit"}, objects : {<<r>> : r \in ORefs} \cup {<<ObjRef("p", "foo"), ObjRef("q", "metadata")>>}]
-\cup [a : {"omit_fields"}, fields : {<<r>> : r \in FRefs} \cup {<<FieldRef("p", "Foo", "A"), FieldRef("p", "Foo", "b")>>}]
+\cup [a : {"omit"}, objects : {<<r>> : r \in ORefs} \cup {<<ObjRef("p", "foo"), ObjRef("q", "metadata")>>,
+        <<ObjRef("p", "Foo"), ObjRef("q", "Foo")>>, <<ObjRef("q", "FOO"), ObjRef("p", "foo")>>, <<ObjRef("q", "Foo"), ObjRef("r", "Foo")>>}]
+\cup [a : {"omit_fields"}, fields : {<<r>> : r \in FRefs} \cup {<<FieldRef("p", "Foo", "A"), FieldRef("p", "Foo", "b")>>,
+        <<FieldRef("p", "Foo", "x"), FieldRef("q", "Foo", "x")>>, <<FieldRef("q", "Foo", "x"), FieldRef("r", "Foo", "x")>>}]
 \cup [a : {"add_fields"}, to : ORefs, fields : {NewFields}]
 \cup [a : {"add_object"}, object : {ObjRef("p", "New"), ObjRef("q", "New"), ObjRef("r", "New"), ObjRef("p", "Foo")},
       as : {TRef("p", "Foo")}, comments : {<<"oc">>}]
@@ -78,12 +84,12 @@ Acts ==
       omit : {<<>>, <<"A">>}]
 \cup [a : {"retype_object"}, object : ORefs, as : {TArray(TRef("p", "Bar"))}, comments : {NoC, SomeC}]
 \cup [a : {"retype_field"}, field : FRefs, as : {TArray(TRef("p", "Bar"))}, comments : {NoC, SomeC}]
-\cup [a : {"fields_set_required"}, fields : {<<r>> : r \in FRefs}]
+\cup [a : {"fields_set_required"}, fields : {<<r>> : r \in FRefs} \cup {<<FieldRef("q", "Foo", "x"), FieldRef("r", "Foo", "x")>>}]
 \cup [a : {"fields_set_not_required"}, fields : {<<r>> : r \in FRefs}]
 \cup [a : {"fields_set_default"}, field : FRefs, value : {VStr("nd")}]
 \cup [a : {"replace_reference"}, from : {ObjRef("p", "Foo"), ObjRef("p", "foo"), ObjRef("p", "bar"), ObjRef("q", "Foo"), ObjRef("p", "Zed")},
       to : {ObjRef("p", "Bar"), ObjRef("q", "Foo")}]
-\cup [a : {"constant_to_enum"}, objects : {<<r>> : r \in ORefs}]
+\cup [a : {"constant_to_enum"}, objects : {<<r>> : r \in ORefs} \cup {<<ObjRef("p", "Foo"), ObjRef("r", "Foo")>>, <<ObjRef("r", "Foo"), ObjRef("p", "Foo")>>}]
 \cup [a : {"trim_enum_values"}]
 \cup [a : {"hint_object"}, object : ORefs, hints : {<<Hint("h1", VStr("nv")), Hint("h2", VBool(TRUE))>>}]
 \cup [a : {"schema_set_identifier"}, pkg : {"p", "r"}, id : {"ID"}]
@@ -95,15 +101,25 @@ Acts ==
 
 InitAct == [a |-> "init"]
 
-Init == /\ pre \in InitIRs /\ cur = pre /\ act = InitAct /\ depth = 0
+\* transformations that create or copy structure (object copies, shared `as` types, added fields)
+Copying(a) == a.a \in {"duplicate_object", "add_object", "retype_object", "retype_field", "add_fields", "rename_object"}
+Structured(S) == Len(S[1].objects) = 1 /\ S[1].objects[1].type.k \in {"struct", "enum", "disj"}
+SeqSlice(S) == (NameIdx[S[1].objects[1].name] + (IF S[1].entry = "" THEN 0 ELSE 1)) % NSlices = Slice
+
+Init == /\ pre \in (IF SeqMode THEN {x \in InitIRs : Structured(x) /\ SeqSlice(x)} ELSE InitIRs)
+        /\ cur = pre /\ act = InitAct /\ depth = 0 /\ init0 = pre /\ hist = <<>>
 Next == /\ depth < MaxDepth
+        /\ (IF act.a = "init" THEN TRUE ELSE ~act.err)   \* a failed transformation ends the chain
         /\ \E a \in Acts :
+              /\ (SeqMode /\ depth = 0) => Copying(a)
               /\ Defined(cur, a)
               /\ LET out == Apply(cur, a) IN
                    /\ pre' = cur
                    /\ act' = [a EXCEPT !.a = a.a] @@ [err |-> out.err]
                    /\ cur' = out.S
                    /\ depth' = depth + 1
+                   /\ init0' = init0
+                   /\ hist' = Append(hist, [a EXCEPT !.a = a.a] @@ [err |-> out.err])
 Spec == Init /\ [][Next]_vars
 
 (* -------------------------- design-level properties -------------------- *)
@@ -112,5 +128,5 @@ Spec == Init /\ [][Next]_vars
 RefsPreserved == (act.a # "init" /\ NameChanging(act) /\ AllRefsResolve(pre)) => AllRefsResolve(cur)
 ShapeOK == SelfRefsOK(cur) /\ NoDupObjects(cur)
 
-Emit == act.a = "init" \/ PrintT(<<"EDGE", ToJson([pre |-> pre, act |-> act, post |-> cur])>>)
+Emit == act.a = "init" \/ PrintT(<<"EDGE", ToJson([pre |-> pre, act |-> act, post |-> cur, init |-> init0, hist |-> hist])>>)
 ===============================================================================
